@@ -31,6 +31,7 @@ import (
 	"github.com/oxia-db/oxia/server/wal"
 
 	"verif/harness/internal/hx"
+	"verif/harness/internal/kvsafe"
 )
 
 const (
@@ -59,7 +60,7 @@ type nodeProc struct {
 }
 
 func openNode(dir string) (*nodeProc, error) {
-	kf, err := kv.NewPebbleKVFactory(&kv.FactoryOptions{DataDir: filepath.Join(dir, "db"), CacheSizeMB: 1})
+	kf, err := kvsafe.New(&kv.FactoryOptions{DataDir: filepath.Join(dir, "db"), CacheSizeMB: 1})
 	if err != nil {
 		return nil, err
 	}
@@ -124,7 +125,7 @@ func durableTerm(n *nodeProc, scratch string) (int64, bool) {
 			if err := copyTree(n.dir, img); err != nil {
 				return 0, false
 			}
-			kf, err := kv.NewPebbleKVFactory(&kv.FactoryOptions{DataDir: filepath.Join(img, "db"), CacheSizeMB: 1})
+			kf, err := kvsafe.New(&kv.FactoryOptions{DataDir: filepath.Join(img, "db"), CacheSizeMB: 1})
 			if err != nil {
 				return 0, false
 			}
